@@ -390,6 +390,8 @@ def r_transform(c):
         Agg = from_torchjd()
         s0, s1 = tuple(c["shapes"][0]), tuple(c["shapes"][1])
         k0, k1 = torch.zeros(s0, dtype=torch.float64), torch.zeros(s1, dtype=torch.float64)
+        if c.get("k0_transposed"):
+            k0 = torch.zeros(tuple(reversed(s0)), dtype=torch.float64).T  # same shape, non-contiguous layout
         m = int(c["rows"])
         rng = np.random.default_rng(1)
         jd = {k0: torch.tensor(rng.normal(size=(m,) + s0)), k1: torch.tensor(rng.normal(size=(m,) + s1))}
